@@ -69,7 +69,7 @@ func c17Specs(tier string) []pagerSpec {
 func init() {
 	register(&Prop{
 		ID:   "C17",
-		Rule: "exhaustive enumeration of conventional pagers: N in 2..12 x k in 1..N (77 pairs) x 8 URL families under 2 base paths (/story/alpha, /articles/story), page URL with / without a #fragment (query ?page=, query with another numeric parameter, path /page/k, bare path /k, file suffix -k.html, _pk.html, and -k.html / _Pagek.html under a dated directory /2014/07/) on 4 rotating origins (http, https, another host, a port) x href form {absolute, root-relative, path-/query-relative} x page URL {without, with trailing slash for the two path families} x {6 separators x 6 current-page decorations (plain, strong, span.current, [k], with a hidden (current) note in two spellings) for the page-number algorithm; 6 Next/Prev label pairs (incl. « Previous) x {with, without numbered links} for the prev/next algorithm}; wrappers {plain div, div.article-footer, div#sidebar} rotate in quick; thorough additionally x 6 wrappers x {with, without surrounding article noise}. Expected links are computed by resolving the generated href against the page URL. Every grid cell is a distinct non-trivial case.",
+		Rule: "exhaustive enumeration of conventional pagers: N in 2..12 x k in 1..N (77 pairs) x 11 URL families under 2 base paths (/story/alpha, /articles/story), page URL with / without a #fragment (query ?page=, query with another numeric parameter, query after a path that ends in a slash, path /page/k, bare path /k, a directory of its own /k/alpha.html, file suffix -k.html, _pk.html, and -k.html / _Pagek.html / extension-less -page-k under a dated directory /2014/07/) on 4 rotating origins (http, https, another host, a port) x href form {absolute, root-relative, path-/query-relative} x page URL {without, with trailing slash for the two path families} x {6 separators x 6 current-page decorations (plain, strong, span.current, [k], with a hidden (current) note in two spellings) for the page-number algorithm; 6 Next/Prev label pairs (incl. « Previous) x {with, without numbered links} for the prev/next algorithm}; wrappers {plain div, div.article-footer, div#sidebar} rotate in quick; thorough additionally x 6 wrappers x {with, without surrounding article noise}. Expected links are computed by resolving the generated href against the page URL. Every grid cell is a distinct non-trivial case.",
 		Assumptions: []string{
 			"URLs are compared in canonical form (lower-case scheme/host, no trailing slash, raw query, fragment ignored)",
 			"for the prev/next algorithm nothing is demanded of a side that has no labelled anchor",
